@@ -224,6 +224,13 @@ def mon_C02(ctx, k, sc, tr, stats):
             ctx.violation("C02.established_gt_dispersers", "established dispersers exceed dispersers of a cell", sc.text)
             return
         if tag == "overpopulation":
+            # pests only move (or die on arrival): over all cells and hosts the infected cannot
+            # increase and the susceptible cannot decrease - more arriving than left is creation
+            tot_i0 = sum(c["I"] for cells in prev["hosts"] for c in cells)
+            tot_i1 = sum(c["I"] for cells in st["hosts"] for c in cells)
+            if tot_i1 > tot_i0:
+                ctx.violation("C02.pests_created.overpopulation", "step %d: overpopulation movement raised the infected total from %d to %d (more pests arrived than left)" % (step, tot_i0, tot_i1), sc.text)
+                return
             # pests taken out of a cell never exceed what it contained
             for h, cells in enumerate(st["hosts"]):
                 for i, c in enumerate(cells):
@@ -882,6 +889,22 @@ def mon_C16(ctx, k, sc, tr, stats):
     mon_C04(ctx, k, sc, tr, stats, check_competency=True)
     mon_C16_oversuitable(ctx, k, sc, tr, stats)
     mon_C16_pick(ctx, k, sc, tr, stats)
+    if sc.nhosts >= 2:
+        # pests leaving or arriving are split among the hosts so that the pool as a whole behaves
+        # like the sum of its hosts: what the overpopulation rule of C17 demands of the TOTALS
+        # over hosts (departures by the rounding rule, arrivals min(count, all susceptibles)) is a
+        # statement about the split when there are several hosts
+        class SplitView:
+            def __init__(self, c):
+                self._c = c
+
+            def __getattr__(self, n):
+                return getattr(self._c, n)
+
+            def violation(self, key, what, case=None, detail=None):
+                if key in ("C17.overpopulation.counts", "C17.overpopulation.outside"):
+                    self._c.violation(key.replace("C17.overpopulation", "C16.pests_split"), what, case, detail)
+        mon_C17(SplitView(ctx), k, sc, tr, {})
     # a landing disperser goes to at most one host, which must have a susceptible individual:
     # covered by C04.establish_reclassifies per host; here: pests split among hosts
     for prev, step, tag, idx, st in iter_pairs(sc, tr):
